@@ -17,6 +17,15 @@ NOTES = {
  "w2-C18b-m1": "first run: exit 2 (not reproducible in one attempt: sync.Pool); per-task solo processes in sync-aware mode + replay attempts; then caught by oracle (b)",
  "w2-C18b-m2": "missed at first: no yield point between two adjacent atomic operations; statement-level yields, 'sync'-kind sites around sync/atomic calls and a bias of site-targeted runs toward them added; then caught by oracle (b) with no race report",
 }
+NOTES.update({
+ "w3-C10-m1": "NOT caught: it only raises the rate of a misread class (EAN-13 read as UPC-E by the multi-format reader) that the unchanged tree already exhibits and that is a listed known finding; a rate threshold would be a fragile oracle",
+ "w3-C10-m2": "missed at first (image-path misreads were counted as probes); misreads are now class-keyed findings, EAN-8 is not a known class: caught",
+ "w3-C10-m3": "a concurrency mutant (shared add-on decoder): not C10's quantifier - evaluated under C18",
+ "w3-C11-m1": "NOT caught, and not a violation of a listed property: it needs two goroutines calling Decode on the SAME AztecReader; C18 is about private instances and C11's sequential use is unaffected",
+ "w3-C16-m3": "missed at first: all set/unset string pairs had equal lengths; unequal pairs added",
+ "w3-C17-m2": "missed at first: no large solid regions in the bilevel images; images with big rectangles touching the edges (and all-black / all-white) added",
+ "w3-C18-m2": "missed at first: only registry spellings of charset names were used; non-registered spellings added to the QR and ECI operations",
+})
 rows=[]
 for d in sorted(glob.glob('/verif/seeded/*/')):
     name=os.path.basename(d.rstrip('/'))
